@@ -210,7 +210,7 @@ impl<'a> Scenario<'a> {
         self.via_builder = !self.via_builder;
         let res = self.ctx.run(root, beacon, p, self.via_builder);
         let after = self.ctx.dump(p, &self.names);
-        let req = format!("c12.root beacon={} dirs={} cache={}", beacon, listing(root), show_cache(&before, "x"));
+        let req = format!("c12.root beacon={} prov={} dirs={} cache={}", beacon, if matches!(p, Provider::None) { "none" } else { "some" }, listing(root), show_cache(&before, "x"));
         let imp = if res.starts_with("ok") { format!("{} cache={}", res, show_cache(&after, "")) } else { res.clone() };
         self.sink.case(tag, &req, &imp);
         res
@@ -304,7 +304,7 @@ fn main() {
     }
 
     // ---- databases ---------------------------------------------------------------------------
-    let n_scen = if args.thorough() { 900 } else { 110 };
+    let n_scen = if args.thorough() { 900 } else { 60 };
     let mut stats: BTreeMap<&'static str, u64> = BTreeMap::new();
     for si in 0..n_scen {
         let mut r = rng.fork();
@@ -436,10 +436,14 @@ fn main() {
                 {
                     let mut foreign: Vec<(String, String)> = vec![];
                     for k in 0..3 {
-                        foreign.push((format!("{}.chunk", first + k), sha_hex(&r.bytes(8))));
+                        let fname = format!("{}.chunk", first + k);
+                        if !db.trios.iter().any(|t| t.0 == fname) {
+                            foreign.push((fname, sha_hex(&r.bytes(8))));
+                        }
                     }
                     for (pth, c) in &db.extras {
-                        if c.is_some() && r.bool() {
+                        let fname = Path::new(pth).file_name().unwrap().to_string_lossy().to_string();
+                        if c.is_some() && r.bool() && !db.trios.iter().any(|t| t.0 == fname) {
                             foreign.push((Path::new(pth).file_name().unwrap().to_string_lossy().to_string(), sha_hex(&r.bytes(8))));
                         }
                     }
